@@ -31,10 +31,13 @@
     // generate_char_map on concrete lines mixing 1-, 2- and 3-byte characters
     #[kani::proof]
     fn char_map_of_concrete_lines() {
-        let c = UiTokenCollection::new(String::from("a\u{e9}\u{20ac}b"));
-        assert!(c.char_sizes.len() == 7, "OBL:one_map_entry_per_byte");
+        // 1-, 2-, 3- and 4-byte characters: a, e-acute, euro sign, an emoji, b
+        let c = UiTokenCollection::new(String::from("a\u{e9}\u{20ac}\u{1F600}b"));
+        assert!(c.char_sizes.len() == 11, "OBL:one_map_entry_per_byte");
         assert!(c.char_sizes[0] == 0 && c.char_sizes[1] == 1 && c.char_sizes[2] == 1 && c.char_sizes[3] == 2
-             && c.char_sizes[4] == 2 && c.char_sizes[5] == 2 && c.char_sizes[6] == 3, "OBL:every_byte_maps_to_its_character_index");
+             && c.char_sizes[4] == 2 && c.char_sizes[5] == 2 && c.char_sizes[6] == 3 && c.char_sizes[7] == 3
+             && c.char_sizes[8] == 3 && c.char_sizes[9] == 3 && c.char_sizes[10] == 4, "OBL:every_byte_maps_to_its_character_index");
+        assert!(c.get_position(11) == 5 && c.get_position(10) == 4 && c.get_position(6) == 3, "OBL:positions_after_a_four_byte_character");
         let e = UiTokenCollection::new(String::new());
         assert!(e.char_sizes.len() == 0, "OBL:empty_line_has_empty_map");
     }
